@@ -25,7 +25,7 @@ FromJTree(t) ==
       [] t.k = "xfer" -> Xfer(t.dest, FromJTree(t.t))
       [] t.k = "mat"  -> Mat(t.name, FromJTree(t.t))
       [] t.k = "sel"  -> [k |-> "sel", sort |-> t.sort,
-                          proj |-> IF t.proj = "none" THEN NoProj ELSE SomeProj(SeqSet(t.proj)),
+                          proj |-> [some |-> t.proj.some, cols |-> SeqSet(t.proj.cols)],
                           dedup |-> t.dedup, a |-> t.a, b |-> t.b,
                           skip |-> FromJTree(t.skip), t |-> FromJTree(t.t)]
 =============================================================================
